@@ -17,6 +17,8 @@ type TextQuery struct {
 	Weight   *float32      `json:"weight,omitempty"`
 	Filter   *models.Query `json:"filter,omitempty"`
 	Prop     string        `json:"prop,omitempty"` // the text property ("" = gen.PText)
+	// Stray: the query also carries options blocks of other index types (without a filter)
+	Stray bool `json:"stray,omitempty"`
 }
 
 func (q TextQuery) prop() string {
@@ -27,7 +29,12 @@ func (q TextQuery) prop() string {
 }
 
 func (q TextQuery) ToQuery() models.Query {
-	return models.Query{Property: q.prop(), Text: &models.SearchTextOptions{Value: q.Value, Operator: q.Operator, Limit: q.Limit, Weight: q.Weight, Filter: q.Filter}}
+	out := models.Query{Property: q.prop(), Text: &models.SearchTextOptions{Value: q.Value, Operator: q.Operator, Limit: q.Limit, Weight: q.Weight, Filter: q.Filter}}
+	if q.Stray {
+		out.VectorVamana = &models.SearchVectorVamanaOptions{Vector: []float32{1, 2}, Operator: models.OperatorNear, Limit: 5, SearchSize: 25}
+		out.VectorFlat = &models.SearchVectorFlatOptions{Vector: []float32{1, 2}, Operator: models.OperatorNear, Limit: 5}
+	}
+	return out
 }
 
 // CheckText verifies one text answer against the model's current corpus.
